@@ -239,6 +239,7 @@ def family_D():
   out.append(("D[net-without-driver]",top([P,"s.v = Wire( Bits8 )","s.w //= s.v"]+rd),'NoWriterError'))
   for k,perm in enumerate((("s.a //= s.b","s.b //= s.c","s.c //= s.a"),("s.c //= s.a","s.a //= s.b","s.b //= s.c"),("connect( s.b, s.a )","connect( s.c, s.b )","connect( s.a, s.c )"))):
     out.append((f"D[connection-loop;o{k}]",top([P,"s.a = Wire( Bits8 ); s.b = Wire( Bits8 ); s.c = Wire( Bits8 )","s.a //= s.in0"]+list(perm)+blk('up_o',"s.out @= s.c")),'InvalidConnectionError'))
+  out.append(("D[self-connection]",top([P,"s.a = Wire( Bits8 )","s.a //= s.in0","connect( s.a, s.a )"]+blk('up_o',"s.out @= s.a")),'InvalidConnectionError'))
   out.append(("D[tree-connection-no-loop]",top([P,"s.a = Wire( Bits8 ); s.b = Wire( Bits8 ); s.c = Wire( Bits8 )","s.a //= s.in0","s.b //= s.a","s.c //= s.a"]+blk('up_o',"s.out @= s.c")),None))
   # ---- port rules
   CH="class Ch( Component ):\n  def construct( s ):\n    s.i = InPort( Bits8 ); s.o = OutPort( Bits8 ); s.wi = Wire( Bits8 )\n    @update\n    def up_ch():\n      s.wi @= s.i\n      s.o @= s.wi\n\n"
